@@ -27,6 +27,7 @@ KINDS = ('truncated_record', 'oversized_length', 'undecodable_mti', 'unknown_bit
 FRAMING = ('truncated_record', 'oversized_length')
 # how the caller walks the reader: the statement is about iteration, however it is spelled
 CONSUME = ('for', 'for', 'next_only', 'list', 'next_then_for', 'next2_then_list', 'islice_then_for', 'iter_twice')
+CUTS = ('anywhere', 'after_prefix', 'on_first_fill_byte', 'after_blanks', 'anywhere', 'on_second_fill_byte', 'after_blanks')
 # over-long length values, including ones made of the 1014 fill byte and of ASCII/EBCDIC spaces and zeros
 OVERSIZED = (6001, 70000, 0x7fffffff, 0xfffffff0, 0x40404040, 0x00404040, 0x40400000, 0x20202020, 0xf0f0f0f0, 0x30303030, 0x00004040)
 
@@ -53,6 +54,8 @@ def good_message(rng, enc, i):
          'DE55': bytes.fromhex('9f2608' + '%016x' % rng.getrandbits(64) + '9f270180'), 'DE71': i + 1}
     if i % 3 == 0:
         m['DE72'] = gen.text(rng, enc, rng.randint(200, 900), 'alnum')
+    if i % 2 == 1:
+        m['DE54'] = 'PAY  ROLL@@' + gen.text(rng, enc, rng.randint(5, 40), 'alnum') + '  @@  ' + gen.text(rng, enc, 7, 'alnum')
     if i % 4 == 1:
         # a record of several thousand bytes: its raw bytes are the context of the error, all of them
         for b in (54, 72, 111, 127):
@@ -121,8 +124,29 @@ def judge(ctx, case):
     if kind in FRAMING:
         head = refb.vbs(wires[:k - 1])[:-4]
         if kind == 'truncated_record':
-            cut = rng.randint(1, len(wires[k - 1]) - 1)
-            rec_k = len(wires[k - 1]).to_bytes(4, 'big') + wires[k - 1][:cut]
+            # where the file ends inside record k: anywhere; straight after the complete length prefix; (blocked) on the
+            # first or second fill byte of a block; straight after two x'40' data bytes (EBCDIC blanks, '@@' in Latin-1)
+            wk = wires[k - 1]
+            mode = CUTS[(n * 5 + k * 3 + (1 if blocked else 0) + (0 if enc == 'latin_1' else 2)) % len(CUTS)]
+            cut = rng.randint(1, len(wk) - 1)
+            if mode == 'after_prefix':
+                cut = 0
+            elif mode == 'after_blanks':
+                at = [j + 2 for j in range(1, len(wk) - 3) if wk[j:j + 2] == b'\x40\x40']
+                if at:
+                    cut = rng.choice(at)
+                    ctx.count('truncations straight after two fill-valued data bytes')
+            elif mode in ('on_first_fill_byte', 'on_second_fill_byte') and blocked:
+                # stream offsets p (counted from the start of the file) at which a payload block is exactly full
+                lo, hi = len(head) + 4, len(head) + 4 + len(wk) - 1
+                edges = [p for p in range(lo, hi + 1) if p % 1012 == 0]
+                if edges:
+                    cut = rng.choice(edges) - len(head) - 4
+                    ctx.count('truncations of a blocked file inside the two fill bytes of a block')
+                else:
+                    mode = 'anywhere'
+            ctx.seen('truncation points', mode)
+            rec_k = len(wk).to_bytes(4, 'big') + wk[:cut]
             stream = head + rec_k
             want_ctx_exact = None
         else:
@@ -144,6 +168,9 @@ def judge(ctx, case):
         full = refb.block(refb.vbs(wires))
         p = len(stream)
         data = full[:p + 2 * (p // 1012)]
+        if p % 1012 == 0 and mode in ('on_first_fill_byte', 'on_second_fill_byte'):
+            # the payload block is full: the cut above falls after both fill bytes; move it onto them
+            data = full[:p + 2 * (p // 1012) - (2 if mode == 'on_first_fill_byte' else 1)]
     got = []
     rdr = []
 
@@ -226,6 +253,12 @@ def judge(ctx, case):
                                want_len=len(want_ctx_exact)))
             return
     else:
+        if kind == 'truncated_record' and bc != payload_from_k:
+            # "the bytes that could be read of it": every data byte of record k that survives in the file, and only those
+            ctx.violation('context_is_not_the_bytes_that_could_be_read:framing_level',
+                          dict(detail, got_len=len(bc or b''), want_len=len(payload_from_k), got_tail=hx((bc or b'')[-8:]),
+                               want_tail=hx(payload_from_k[-8:])))
+            return
         if not bc or bc[:4] != rec_k[:4] or payload_from_k[:len(bc)] != bc:
             ctx.violation('context_is_not_the_faulty_record:framing_level',
                           dict(detail, got=hx(bc or b'')[:80], want_prefix=hx(rec_k[:4])))
@@ -281,6 +314,11 @@ def require(m):
         reasons.append('fill-byte length value never driven')
     if not {1, 2, 3} <= set(m['classes'].get('fault positions k', ())):
         reasons.append('fault positions beyond the first record not driven')
+    for need in ('truncations straight after two fill-valued data bytes', 'truncations of a blocked file inside the two fill bytes of a block'):
+        if not m['counters'].get(need) and not m['violations']:
+            reasons.append('never driven: ' + need)
+    if 'after_prefix' not in m['classes'].get('truncation points', ()) and not m['violations']:
+        reasons.append('no file ending straight after a complete length prefix')
     if not m['counters'].get('faulty records whose context is longer than 2 KB') and not m['violations']:
         reasons.append('no faulty record longer than 2 KB')
     if not m['counters'].get('tool runs') and not m['violations']:
